@@ -53,8 +53,8 @@ LEAN_MODULES = {
 # kernels of /repo that are TRANSLATED into Lean on every run (harness/extract/py2lean.py) and proved equal to the
 # hand-written model by the theorems C*_src_* of TFV/Properties/Src/*.lean
 SRC_KERNELS = {
-    "C01": ["TheFittest_replace", "TheFittest_update", "termination_check", "get_remains_calls", "EA_get_fitness", "TheFittest_get", "EA_from_population_g_to_fitness", "DE_from_population_g_to_fitness", "SHAGA_from_population_g_to_fitness"],
-    "C02": ["TheFittest_replace", "TheFittest_update", "termination_check", "get_remains_calls", "EA_get_fitness", "DE_greedy_replacement", "jDE_greedy_replacement", "TheFittest_get", "EA_from_population_g_to_fitness", "DE_from_population_g_to_fitness", "SHAGA_from_population_g_to_fitness"],
+    "C01": ["TheFittest_replace", "TheFittest_update", "termination_check", "get_remains_calls", "EA_get_fitness", "TheFittest_get", "EA_from_population_g_to_fitness", "DE_from_population_g_to_fitness", "SHAGA_from_population_g_to_fitness", "GA_from_population_g_to_fitness"],
+    "C02": ["TheFittest_replace", "TheFittest_update", "termination_check", "get_remains_calls", "EA_get_fitness", "DE_greedy_replacement", "jDE_greedy_replacement", "TheFittest_get", "EA_from_population_g_to_fitness", "DE_from_population_g_to_fitness", "SHAGA_from_population_g_to_fitness", "GA_from_population_g_to_fitness"],
     "C03": ["TheFittest_replace", "TheFittest_update", "termination_check", "get_remains_calls", "EA_fit", "EA_get_fitness", "EA_get_aim"],
     "C05": ["TheFittest_replace", "TheFittest_update", "termination_check", "get_remains_calls", "EA_get_fitness"],
     "C06": ["flip_mutation", "binomialGA", "one_point_crossover", "two_point_crossover", "uniform_crossover",
